@@ -180,7 +180,7 @@ func genStoreCase(prop string, r *rng, tier string) {
 			if prop == "C14" && r.chance(2, 3) {
 				var fs []string
 				for k := 0; k < 1+r.intn(2); k++ {
-					fs = append(fs, strconv.Itoa(r.intn(12))+string("ep"[r.intn(2)]))
+					fs = append(fs, strconv.Itoa(r.intn(12))+string("epn"[r.intn(3)]))
 				}
 				sc = strings.Join(fs, ",")
 			}
